@@ -80,6 +80,13 @@ def run(repo, rep):
     lx = LayoutExtractor(repo)
     check_wire(lx, rep, prefix='C10', only=('MaximumLengthSubItem',), rule_map={'L1': 'X7', 'L2': 'X7', 'L3': 'X7', 'L5': 'X7', 'L6': 'X7'})
 
+    rep.rule('C10.X8', 'a P-DATA-TF that is not built from a fragment of the fragmenters (a whole message sent in one PDV) is built only '
+             'on a path that bounds the message by limit - overhead, so its length never exceeds the peer\'s maximum', 1)
+    from .c06 import fast_path_problems
+    fp_, nfp_ = fast_path_problems(repo, hier)
+    rep.check(not fp_, 'C10.X8', 'dimsemessages:DIMSEMessage.encode:whole-message-paths',
+              repo.func('dimsemessages', 'DIMSEMessage.encode').loc(), '%d whole-message path(s), each bounded by the fragment width' % nfp_,
+              '; '.join(fp_))
     # ---------------------------------------------------------------- X1 / X2
     facts = {}
     for cls, meth in (('AssociationAcceptor', 'accept'), ('AssociationRequester', '_request')):
